@@ -125,7 +125,8 @@ CHECKS["C20"] = dict(
          "between copied and default files, refusal of partial molecules, and independence of atom numbering (equivalent strings). "
          "(2) Typing.tla specifies the assignment as a function of the match relation between rules and atoms (longest matching rule text, earliest among equals; total or the "
          "assignment error with exactly the partial assignment); TLC checks its theorems (exactly one type per atom, numbering-free under every permutation, longest wins) over "
-         "EVERY match relation of a small universe (TypingMC), and validates every recorded call of get_type_assignments / MolGen.forcefield_types - each generated molecule in "
+         "EVERY match relation of a small universe (TypingMC); the TLA+ proof system proves numbering independence of the specified assignment for every number of atoms, rule "
+         "list, match relation and permutation (proofs/TypingProofs.tla, 23 obligations); TLC validates every recorded call of get_type_assignments / MolGen.forcefield_types - each generated molecule in "
          "its own and in random atom numberings (Chem.RenumberAtoms) - against the specification atom by atom (TypingTrace: outcome, typed atoms, type, mass of the element, "
          "renumbered result = result renumbered).",
     design_ref="DESIGN.md 4/C20",
